@@ -704,10 +704,13 @@ _archive_write_free(struct archive *_a)
 	    ARCHIVE_STATE_ANY | ARCHIVE_STATE_FATAL, "archive_write_free");
 	if (a->archive.state != ARCHIVE_STATE_FATAL)
 		r = archive_write_close(&a->archive);
-	else
+	else {
 		/* The archive is not finished, but every filter that is
 		 * still open must get the chance to release its resources. */
-		(void)__archive_write_filters_close(a);
+		r1 = __archive_write_filters_close(a);
+		if (r1 < r)
+			r = r1;
+	}
 
 	/* Release format resources. */
 	if (a->format_free != NULL) {
